@@ -166,7 +166,7 @@ fn c10_requote_len3() {
 #[kani::proof]
 #[kani::stub(tracing::callsite::DefaultCallsite::register, stub_tracing_register)]
 #[kani::unwind(8)]
-fn c10_requote_alphabet_len4() {
+fn c10_requote_alphabet_len4_t() {
     requote_lemma_over(4, b"%/+", true);
 }
 
